@@ -82,7 +82,7 @@ func classifyErr(err error) string {
 	return "other:" + s
 }
 
-func wireCase(rng *rand.Rand, topo int, ncallers, ncalls int, closeAfter time.Duration, closes int) (verdict string, hist map[string]int) {
+func wireCase(rng *rand.Rand, topo int, ncallers, ncalls int, closeAfter time.Duration, closes int, optcfg int) (verdict string, hist map[string]int) {
 	hist = map[string]int{}
 	var entered sync.Map // key -> true: handler was entered
 	handler := raw.Wrap(rawHandlerFunc(func(ctx context.Context, args *raw.Args) (*raw.Res, error) {
@@ -91,7 +91,7 @@ func wireCase(rng *rand.Rand, topo int, ncallers, ncalls int, closeAfter time.Du
 		time.Sleep(d)
 		return &raw.Res{Arg2: args.Arg2, Arg3: args.Arg3}, nil
 	}))
-	srv, err := tchannel.NewChannel("srv", &tchannel.ChannelOptions{Logger: tchannel.NullLogger})
+	srv, err := tchannel.NewChannel("srv", c07ccWireOpts(optcfg, nil))
 	if err != nil {
 		return "harness: " + err.Error(), hist
 	}
@@ -104,7 +104,7 @@ func wireCase(rng *rand.Rand, topo int, ncallers, ncalls int, closeAfter time.Du
 	var rel *tchannel.Channel
 	if topo == 2 {
 		rh := &wireRelayHost{dest: target}
-		rel, err = tchannel.NewChannel("relay", &tchannel.ChannelOptions{Logger: tchannel.NullLogger, RelayHost: rh})
+		rel, err = tchannel.NewChannel("relay", c07ccWireOpts(optcfg, rh))
 		if err != nil {
 			return "harness: " + err.Error(), hist
 		}
@@ -114,7 +114,7 @@ func wireCase(rng *rand.Rand, topo int, ncallers, ncalls int, closeAfter time.Du
 		defer rel.Close()
 		target = rel.PeerInfo().HostPort
 	}
-	cli, err := tchannel.NewChannel("cli", &tchannel.ChannelOptions{Logger: tchannel.NullLogger})
+	cli, err := tchannel.NewChannel("cli", c07ccWireOpts(optcfg, nil))
 	if err != nil {
 		return "harness: " + err.Error(), hist
 	}
@@ -174,9 +174,13 @@ func wireCase(rng *rand.Rand, topo int, ncallers, ncalls int, closeAfter time.Du
 		}(g)
 	}
 	time.Sleep(closeAfter)
+	closePanic := ""
 	for i := 0; i < closes; i++ {
 		closeCalled.Store(time.Now().UnixNano())
-		closing.Close()
+		st := closing.State()
+		if p := c07ccSafeClose(closing); p != nil && closePanic == "" {
+			closePanic = fmt.Sprintf("Close #%d on a channel in state %v PANICKED: %v (unrecovered this kills the process together with every call being drained)", i+1, st, p)
+		}
 		if i+1 < closes {
 			time.Sleep(time.Duration(rng.Intn(2000)) * time.Microsecond)
 		}
@@ -192,6 +196,9 @@ func wireCase(rng *rand.Rand, topo int, ncallers, ncalls int, closeAfter time.Du
 	close(stopPoll)
 	<-pollDone
 	_ = t0
+	if closePanic != "" {
+		return closePanic, hist
+	}
 
 	for _, c := range calls {
 		cl := classifyErr(c.err)
@@ -335,7 +342,18 @@ func engineCloseWire(rng *rand.Rand, n int, tier string, o *Out) {
 		ncalls := 2 + rng.Intn(5)
 		closeAfter := time.Duration(rng.Intn(6000)) * time.Microsecond
 		closes := 1 + rng.Intn(2)
-		verdict, hist := wireCase(rng, topo, ncallers, ncalls, closeAfter, closes)
+		// V07: every other case runs with the optional components configured on all channels (idle
+		// sweeper and / or health checks, with intervals long enough that only their start / stop
+		// paths run); a few of them with a third Close
+		optcfg := 0
+		if c%2 == 1 {
+			optcfg = 1 + rng.Intn(3)
+			if rng.Intn(3) == 0 {
+				closes = 3
+			}
+		}
+		o.Hist(fmt.Sprintf("optional-components=%d", optcfg))
+		verdict, hist := wireCase(rng, topo, ncallers, ncalls, closeAfter, closes, optcfg)
 		for k, v := range hist {
 			for i := 0; i < v; i++ {
 				o.Hist(k)
@@ -346,9 +364,9 @@ func engineCloseWire(rng *rand.Rand, n int, tier string, o *Out) {
 			o.Sample(map[string]interface{}{"sub": "closewire", "closing": []string{"server", "client", "relay"}[topo], "callers": ncallers, "calls_each": ncalls, "close_after_us": closeAfter.Microseconds(), "closes": closes, "outcomes": hist})
 		}
 		if verdict != "" {
-			verdict += fmt.Sprintf(" [closing the %s, %d callers x %d calls, Close x%d after %v]", []string{"server", "client", "relay"}[topo], ncallers, ncalls, closes, closeAfter)
+			verdict += fmt.Sprintf(" [closing the %s, %d callers x %d calls, Close x%d after %v, optional components %d (1 idle sweeper, 2 health checks, 3 both)]", []string{"server", "client", "relay"}[topo], ncallers, ncalls, closes, closeAfter, optcfg)
 		}
-		o.Oracle("closewire", fmt.Sprintf("w%d", c), true, fmt.Sprint(topo, ncallers, ncalls, closeAfter, closes, c), verdict)
+		o.Oracle("closewire", fmt.Sprintf("w%d", c), true, fmt.Sprint(topo, ncallers, ncalls, closeAfter, closes, optcfg, c), verdict)
 	}
 	for c := 0; c < n/2+1; c++ {
 		o.Hist("listener")
